@@ -206,17 +206,26 @@ h_url(void)
 }
 
 static void
-h_regexp(void)
+h_regexp(int withflags)
 {
     spif_regexp_t a = spif_regexp_new_from_ptr(SPIF_CHARPTR("ab")), b = spif_regexp_new_from_ptr(SPIF_CHARPTR("ac")), d;
 
     CHECK("regexp created", a != NULL && b != NULL);
-    (void) spif_regexp_compile(a);
+    if (withflags) {
+        (void) spif_regexp_set_flags(a, SPIF_CHARPTR("im"));      /* non-default flags; compiles */
+    } else {
+        (void) spif_regexp_compile(a);
+    }
     d = spif_regexp_dup(a);
     CHECK("dup returns a distinct regexp of the same class", d != NULL && d != a && SPIF_OBJ_CLASS(d) == SPIF_OBJ_CLASS(a));
     CHECK("type() names the class", spif_regexp_type(a) == SPIF_OBJ_CLASSNAME(a));
     if (d) {
         CHECK("copy has its own compiled data", d->data == NULL || d->data != a->data);
+        CHECK("copy carries the original's flags", d->flags == a->flags);
+        if (d->data != NULL) {
+            /* what the copy will match with is what the ORIGINAL's flags and text compile to */
+            CHECK("the copy's compiled pattern was compiled with the original's flags and text", ((int *) d->data)[0] == (int) a->flags && ((int *) d->data)[1] == 'a');
+        }
         CHECK("comp: copy equals original", (int) spif_regexp_comp(d, a) == 0);
         spif_regexp_del(d);
     }
